@@ -106,6 +106,8 @@ def build(extra_rewrites=None, lock_overlay=False, buffer_min=None, quiet=True):
             raise Inconclusive("module file missing: " + modfile)
         with open(p, "a") as fh:
             fh.write('\n#[cfg(kani)]\n#[path = "verif/%s"]\npub(crate) mod vacc;\n' % shim)
+    # 1b. case-mapping table = the real cfb_uppercase_char evaluated natively on SIGMA
+    info["uptable"] = gen_uptable(src, hdst, root)
     # 2. error macros: payload-free errors (KIND taken from the real file)
     p = os.path.join(src, "internal", "macros.rs")
     text = open(p).read()
@@ -176,6 +178,42 @@ def build(extra_rewrites=None, lock_overlay=False, buffer_min=None, quiet=True):
     ).stdout.strip()
     info["unsafe_in_crate"] = bool(unsafe)
     return root, crate, info
+
+
+SIGMA = ["a", "b", "z", "A", "B", "Z", "0", "_", "[", "\u00df", "\u00e9", "\u00c9", "\u1f80", "\u1f88", "\U0001d49c"]
+
+
+def gen_uptable(src, hdst, root):
+    """Builds a tiny native program from /repo's current path.rs (+ macros.rs,
+    uppercase.txt), evaluates the real private `cfb_uppercase_char` on SIGMA and
+    writes harness/uptable.rs.  The Kani stub for that function is therefore
+    equal to the real function on SIGMA by construction."""
+    d = os.path.join(root, "uptable")
+    os.makedirs(d)
+    for f in ("macros.rs", "path.rs", "uppercase.txt"):
+        shutil.copy(os.path.join(src, "internal", f), os.path.join(d, f))
+    with open(os.path.join(d, "path.rs"), "a") as fh:
+        fh.write("\npub fn __verif_up(c: char) -> char { cfb_uppercase_char(c) }\n")
+    cps = ", ".join("'\\u{%x}'" % ord(c) for c in SIGMA)
+    open(os.path.join(d, "main.rs"), "w").write(
+        "#![allow(dead_code, unused_macros, unused_imports)]\n#[macro_use]\nmod macros;\nmod path;\nfn main() { for c in [%s] { println!(\"{:x} {:x}\", c as u32, path::__verif_up(c) as u32); } }\n" % cps)
+    p = subprocess.run(["rustc", "--edition", "2018", "-A", "warnings", "-o", os.path.join(d, "uptable"), os.path.join(d, "main.rs")],
+                       capture_output=True, text=True)
+    if p.returncode != 0:
+        raise Inconclusive("uptable build failed: " + p.stderr[-300:])
+    out = subprocess.run([os.path.join(d, "uptable")], capture_output=True, text=True).stdout.split()
+    pairs = [(int(out[i], 16), int(out[i + 1], 16)) for i in range(0, len(out), 2)]
+    if len(pairs) != len(SIGMA):
+        raise Inconclusive("uptable output malformed")
+    with open(os.path.join(hdst, "uptable.rs"), "w") as fh:
+        fh.write("// generated from /repo's current cfb_uppercase_char (native run)\n")
+        fh.write("pub const SIGMA: [char; %d] = [%s];\n" % (len(SIGMA), cps))
+        fh.write("pub fn table_upper(c: char) -> char {\n    match c as u32 {\n")
+        for a, b in pairs:
+            fh.write("        0x%x => '\\u{%x}',\n" % (a, b))
+        fh.write("        _ => { kani::assume(false); c }\n    }\n}\n")
+    shutil.rmtree(d, ignore_errors=True)
+    return {"sigma": ["U+%04X" % ord(c) for c in SIGMA], "map": ["%x->%x" % p for p in pairs]}
 
 
 def _head():
